@@ -80,9 +80,14 @@ class Sym:
                     continue
                 rv = payload["rv"]
                 if rv["k"] in ("use", "cast"):
-                    out |= self.sym(B, rv["o"], env, depth - 1)
+                    o_ = rv["o"]
+                    if o_["k"] in ("copy", "move") and place["p"]:
+                        # `c = table_entry; c.src`: the projection goes on into what was moved
+                        out |= self.sym_place(B, {"l": o_["p"]["l"], "p": o_["p"]["p"] + place["p"]}, env, depth - 1)
+                    else:
+                        out |= self.sym(B, o_, env, depth - 1)
                 elif rv["k"] == "ref":
-                    out |= self.sym_place(B, rv["p"], env, depth - 1)
+                    out |= self.sym_place(B, {"l": rv["p"]["l"], "p": rv["p"]["p"] + [e for e in place["p"] if e != "*"]} if place["p"] else rv["p"], env, depth - 1)
                 elif rv["k"] == "agg" and rv["ak"] in ("tuple", "adt") and place["p"] and self._agg_member(rv, place["p"]) is not None:
                     # a member of a value built here: `t.1`, `(x as Some).0.1` - the projection goes on into the member
                     op_, rest_ = self._agg_member(rv, place["p"])
@@ -97,6 +102,25 @@ class Sym:
             elif kind == "call":
                 out |= self.sym_call(B, bi, payload, env, depth - 1)
         return out or {"<undef>"}
+
+    @staticmethod
+    def _calls_in_flow_order(B):
+        """call sites in reverse post-order of the CFG (block numbers are not an execution order once loops were unrolled or helpers
+        spliced in: their blocks are appended)"""
+        seen, post = set(), []
+        stack = [(0, iter([tg for tg, _ in B.succ(0)]))]
+        seen.add(0)
+        while stack:
+            b, it = stack[-1]
+            nxt = next(it, None)
+            if nxt is None:
+                post.append(b)
+                stack.pop()
+            elif nxt not in seen:
+                seen.add(nxt)
+                stack.append((nxt, iter([tg for tg, _ in B.succ(nxt)])))
+        pos = {b: i for i, b in enumerate(reversed(post))}
+        return sorted(B.calls, key=lambda c: (pos.get(c[0], 10 ** 9), c[0]))
 
     @staticmethod
     def _agg_member(rv, proj):
@@ -161,7 +185,7 @@ class Sym:
             return out
         B = self.body(fid)
         env = env or {}
-        for bi, w, r, t in B.calls:
+        for bi, w, r, t in self._calls_in_flow_order(B):
             if w == mir.POLL:
                 continue
             name = q.base_name(r or w or "")
